@@ -214,10 +214,12 @@ def descs_C06(tier):
         for prim in prims:
             for n in range(1, 4):
                 for edges in multigraphs(n, 4 if tier == "quick" else 5):
-                    for form in (("vars", "neg", "cmp", "tied") if len(edges) >= 1 else ("vars",)):
+                    for form in (("vars", "neg", "cmp", "tied", "trues", "falses") if len(edges) >= 1 else ("vars",)):
                         yield dict(func=func, n=n, edges=[list(e) for e in edges], prim=prim, form=form)
             for edges in simple_graphs(4):
                 yield dict(func=func, n=4, edges=[list(e) for e in edges], prim=prim, form="vars")
+                if len(edges) >= 3:
+                    yield dict(func=func, n=4, edges=[list(e) for e in edges], prim=prim, form="trues")
             if tier != "quick":
                 for edges in multigraphs(4, 5):
                     if len(set(edges)) < len(edges):
@@ -477,7 +479,7 @@ def inst_C09(d):
 def descs_C09(tier):
     for n in range(1, 4):
         for edges in multigraphs(n, 4 if tier == "quick" else 6):
-            for form in (("vars", "neg", "xor2", "cmp", "ncmp", "tied") if len(edges) >= 2 else ("vars",)):
+            for form in (("vars", "neg", "xor2", "cmp", "ncmp", "tied", "trues", "falses") if len(edges) >= 2 else ("vars",)):
                 yield dict(func="active_edges_acyclic", n=n, edges=[list(e) for e in edges], form=form)
     for edges in simple_graphs(4):
         yield dict(func="active_edges_acyclic", n=4, edges=[list(e) for e in edges], form="vars")
